@@ -8,6 +8,7 @@ import (
 
 	"verif/cfg"
 	"verif/cli"
+	"verif/gen"
 	"verif/probe"
 	"verif/work"
 )
@@ -21,7 +22,7 @@ func c15Configs() []*cfg.Config {
 	S := cfg.Str
 	return []*cfg.Config{
 		{Meta: meta(), Params: []cfg.KV{{K: "p0", V: S("%todo()%")}, {K: "p1", V: S("x%p0%")}},
-			Services: []cfg.Service{{Name: "s0", Constructor: cfg.P("pa.New"), Args: []cfg.Val{S("%p1%")}}, {Name: "s1", Constructor: cfg.P("pa.New"), Args: []cfg.Val{S("@s0")}}}},
+			Services: []cfg.Service{{Name: "s0", Constructor: cfg.P("pa.New"), Args: []cfg.Val{S("%p1%")}}, {Name: "s1", Constructor: cfg.P("pa.New"), Args: []cfg.Val{S("@s0")}, Todo: cfg.P(false)}}},
 		{Meta: meta(), Params: []cfg.KV{{K: "p0", V: S(`%todo("later")%`)}, {K: "p1", V: S("%p0%")}},
 			Services: []cfg.Service{{Name: "s0", Todo: cfg.P(true)}, {Name: "s1", Constructor: cfg.P("pa.New"), Args: []cfg.Val{S("@s0"), S("%p1%")}}}},
 		{Meta: meta(), Params: []cfg.KV{{K: "p0", V: S("%fn(1)%")}, {K: "p1", V: S("%p0%-%fnint()%")}},
@@ -103,8 +104,20 @@ func checkC15(c *Ctx) error {
 				ops = append(ops, h...)
 				ops = append(ops, probe.Op{Op: "counts"})
 			}
-			// the generated package is the same for all parts of one configuration, but each unit is its own package
-			units = append(units, &probe.Unit{ID: fmt.Sprintf("c%02d%03d", ci, part), Cfg: conf, Files: []probe.File{{Name: "gontainer.yaml", Content: conf.YAML()}}, Ops: ops})
+			// the generated package is the same for all parts of one configuration, but each unit is its own package;
+			// every third unit gets the configuration as three files with decoys (todo flags, definitions and values that a
+			// later file overrides): placeholders declared in one file and realised in another must behave the same
+			files := []probe.File{{Name: "gontainer.yaml", Content: conf.YAML()}}
+			if part%3 == 1 {
+				rs := rand.New(rand.NewSource(c.Seed*17 + int64(ci*1000+part)))
+				parts := gen.SplitParts(rs, conf, 3)
+				gen.AddDecoys(rs, parts)
+				files = nil
+				for k := range parts {
+					files = append(files, probe.File{Name: fmt.Sprintf("%d0-part.yaml", k+1), Content: parts[k].YAML()})
+				}
+			}
+			units = append(units, &probe.Unit{ID: fmt.Sprintf("c%02d%03d", ci, part), Cfg: conf, Files: files, Ops: ops})
 		}
 	}
 	c.Set("histories", histories)
